@@ -304,7 +304,16 @@ func (s *S) tFind(given [][]uint64, got []s2intersect.Intersection) {
 	if len(given) > 4 || total > 16 {
 		cat = "find-big"
 	}
-	if len(given) > 6 || total > 60 || !s.t.ok(cat) {
+	if len(given) > 10 {
+		// many unions (multi-digit indices): the model's Find is slow, keep a few moderate ones
+		cat = "find-many"
+		if len(given) > 16 || total > 45 {
+			return
+		}
+	} else if len(given) > 6 || total > 60 {
+		return
+	}
+	if !s.t.ok(cat) {
 		return
 	}
 	es := append([]s2intersect.Intersection{}, got...)
